@@ -13,8 +13,10 @@ package main
 
 import (
 	"fmt"
+	"regexp"
 	"sort"
 	"strings"
+	"sync"
 )
 
 type CmdKind int
@@ -48,6 +50,8 @@ type NamedExpr struct {
 }
 
 type LoopSpec struct {
+	FullCut   bool   // cut point: invariant asserted per incoming edge, every assigned cell havocked
+	CutName   string // name used in obligation names for cut points
 	Ordinal   int
 	Invs      []NamedExpr
 	Decreases Expr
@@ -68,6 +72,8 @@ type Proc struct {
 	Blocks    []*Block
 	RangeFact func(c *Cell) Expr // type invariant for a havocked cell (may return nil)
 	ElemInv   func(c *Cell, sel Expr) Expr // type invariant of one element read from a typed memory / heap cell
+	Logic     string                      // SMT-LIB logic ("" = ALL)
+	NoHavoc   map[string]bool             // cells never havocked at cut points (inputs assigned once at entry)
 	Props     []string
 }
 
@@ -102,6 +108,9 @@ type Obligation struct {
 	goal      string
 	script    *[]string
 	Meta      map[string]string
+	Logic     string
+	gen       *vcgen
+	ctx       int // block whose ancestors' facts are relevant
 	// result
 	Status  string // unsat / sat / unknown / timeout / error
 	Solver  string
@@ -111,13 +120,144 @@ type Obligation struct {
 	SMTSize int
 }
 
+// scriptInfo caches, per script line, its kind and the generated symbols (names containing '!') it mentions.
+type scriptInfo struct {
+	kind []byte // 'd' declare-const, 'f' nullary define-fun, 'a' assert, 'p' prelude / other
+	name []string
+	syms [][]string
+}
+
+var symRe = regexp.MustCompile(`[A-Za-z_$.@<>=\-][A-Za-z0-9_$.@<>=\-]*![0-9]+`)
+
+func (g *vcgen) info(upto int) *scriptInfo {
+	g.mu.Lock()
+	defer g.mu.Unlock()
+	if g.sinfo == nil {
+		g.sinfo = &scriptInfo{}
+	}
+	si := g.sinfo
+	for i := len(si.kind); i < upto; i++ {
+		l := g.script[i]
+		k, name := byte('p'), ""
+		switch {
+		case strings.HasPrefix(l, "(declare-const "):
+			k = 'd'
+			name = strings.Fields(l[len("(declare-const "):])[0]
+		case strings.HasPrefix(l, "(define-fun ") && strings.Contains(l, " () "):
+			k = 'f'
+			name = strings.Fields(l[len("(define-fun "):])[0]
+		case strings.HasPrefix(l, "(assert "):
+			k = 'a'
+		}
+		syms := symRe.FindAllString(l, -1)
+		if k != 'a' && name != "" && !strings.Contains(name, "!") {
+			k = 'p'
+		}
+		if k == 'a' && len(syms) == 0 {
+			k = 'p' // a global axiom of the prelude
+		}
+		si.kind = append(si.kind, k)
+		si.name = append(si.name, name)
+		si.syms = append(si.syms, syms)
+	}
+	return si
+}
+
+// Query renders the obligation: the script prefix sliced to the cone of influence of the goal
+// (definitions the goal does not depend on, and assumptions that share no symbol with the cone,
+// are dropped: sound for an `unsat` verdict), followed by the negated goal.
 func (o *Obligation) Query(models bool) string {
 	var sb strings.Builder
 	if models {
 		sb.WriteString("(set-option :produce-models true)\n")
 	}
-	sb.WriteString("(set-logic ALL)\n")
-	for _, l := range (*o.script)[:o.prefix] {
+	if o.Logic != "" {
+		sb.WriteString("(set-logic " + o.Logic + ")\n")
+	} else {
+		sb.WriteString("(set-logic ALL)\n")
+	}
+	lines := (*o.script)[:o.prefix]
+	keep := make([]bool, len(lines))
+	if o.ExpectSat || o.gen == nil {
+		for i := range keep {
+			keep[i] = true
+		}
+	} else {
+		si := o.gen.info(o.prefix)
+		cone := map[string]bool{}
+		for _, s := range symRe.FindAllString(o.goal, -1) {
+			cone[s] = true
+		}
+		defLine := map[string]int{}
+		for i := 0; i < o.prefix; i++ {
+			if si.kind[i] == 'd' || si.kind[i] == 'f' {
+				defLine[si.name[i]] = i
+			}
+		}
+		var work []string
+		for s := range cone {
+			work = append(work, s)
+		}
+		pendingAsserts := []int{}
+		anc := o.gen.anc[o.ctx]
+		for i := 0; i < o.prefix; i++ {
+			switch si.kind[i] {
+			case 'p':
+				keep[i] = true
+			case 'a':
+				// a guarded fact matters only if its block lies on a path to the obligation
+				if lb := o.gen.lineBlk[i]; lb == -1 || lb == o.ctx || anc[lb] {
+					pendingAsserts = append(pendingAsserts, i)
+				}
+			}
+		}
+		add := func(sym string) {
+			if !cone[sym] {
+				cone[sym] = true
+				work = append(work, sym)
+			}
+		}
+		for {
+			for len(work) > 0 {
+				s := work[len(work)-1]
+				work = work[:len(work)-1]
+				if i, ok := defLine[s]; ok && !keep[i] {
+					keep[i] = true
+					for _, t := range si.syms[i] {
+						add(t)
+					}
+				}
+			}
+			changed := false
+			rest := pendingAsserts[:0]
+			for _, i := range pendingAsserts {
+				hit := false
+				for _, t := range si.syms[i] {
+					if cone[t] {
+						hit = true
+						break
+					}
+				}
+				if hit {
+					keep[i] = true
+					changed = true
+					for _, t := range si.syms[i] {
+						add(t)
+					}
+				} else {
+					rest = append(rest, i)
+				}
+			}
+			pendingAsserts = rest
+			if !changed && len(work) == 0 {
+				break
+			}
+		}
+	}
+	for i, l := range lines {
+		if !keep[i] {
+			continue
+		}
 		if o.ExpectSat && strings.HasPrefix(l, "(assert") && (strings.Contains(l, "(forall ") || strings.Contains(l, "(exists ")) {
 			continue // canaries: quantified facts are dropped so that a solver can answer sat
 		}
@@ -155,9 +295,18 @@ type vcgen struct {
 	counter map[string]int
 	oblSeq  map[string]int
 	seenElem map[string]bool
+	sinfo    *scriptInfo
+	mu       sync.Mutex
+	lineBlk  []int              // emitting block of each script line (-1: global)
+	curBlk   int
+	anc      map[int]map[int]bool // block -> ancestor blocks (through forward edges, stopping at cut points)
+	ctxBlk   int                // context block for the obligation being emitted
 }
 
-func (g *vcgen) emit(l string) { g.script = append(g.script, l) }
+func (g *vcgen) emit(l string) {
+	g.script = append(g.script, l)
+	g.lineBlk = append(g.lineBlk, g.curBlk)
+}
 
 func (g *vcgen) fresh(base string, s Sort) *Var {
 	g.counter[base]++
@@ -304,7 +453,7 @@ func (g *vcgen) obligation(guard Expr, c Cmd, st vcState) {
 	g.elemFacts(c.E, st)
 	goal := "(assert (not " + PrintIn(Implies(guard, c.E), st) + "))"
 	o := &Obligation{Proc: g.p.Name, Name: g.p.Name + "/" + name, Props: c.Props, ExpectSat: c.ExpectSat,
-		prefix: len(g.script), goal: goal, script: &g.script, Meta: c.Meta}
+		prefix: len(g.script), goal: goal, script: &g.script, Meta: c.Meta, Logic: g.p.Logic, gen: g, ctx: g.ctxBlk}
 	g.obls = append(g.obls, o)
 	if !c.ExpectSat {
 		g.fact(guard, c.E, st)
@@ -323,8 +472,10 @@ func GenVCs(p *Proc, prelude []string) (obls []*Obligation, err error) {
 			panic(r)
 		}
 	}()
-	g := &vcgen{p: p, counter: map[string]int{}, oblSeq: map[string]int{}, seenElem: map[string]bool{}}
-	g.script = append(g.script, prelude...)
+	g := &vcgen{p: p, counter: map[string]int{}, oblSeq: map[string]int{}, seenElem: map[string]bool{}, curBlk: -1, anc: map[int]map[int]bool{}, ctxBlk: -1}
+	for _, l := range prelude {
+		g.emit(l)
+	}
 
 	// --- back edges (DFS) ---
 	type ekey struct{ from, idx int }
@@ -443,13 +594,31 @@ func GenVCs(p *Proc, prelude []string) (obls []*Obligation, err error) {
 		if len(ins) == 0 {
 			continue
 		}
+		g.curBlk, g.ctxBlk = b.ID, b.ID
+		if b == p.Entry {
+			g.curBlk = -1 // facts of the entry block hold unconditionally (inputs are never havocked)
+		}
+		isCut := b.Loop != nil && b.Loop.FullCut
+		a := map[int]bool{}
+		if !isCut {
+			for _, in := range ins {
+				if in.from != nil {
+					a[in.from.ID] = true
+					for k := range g.anc[in.from.ID] {
+						a[k] = true
+					}
+				}
+			}
+		}
+		g.anc[b.ID] = a
 		// reach condition
 		var guards []Expr
 		for _, in := range ins {
 			guards = append(guards, in.guard)
 		}
 		var reach Expr
-		if b == p.Entry {
+		if b == p.Entry || isCut {
+			// a cut point is verified for every state satisfying its invariant
 			reach = True
 		} else {
 			rv := g.fresh(fmt.Sprintf("reach_b%d", b.ID), SBool)
@@ -508,14 +677,39 @@ func GenVCs(p *Proc, prelude []string) (obls []*Obligation, err error) {
 				st[k] = nv
 			}
 		}
-		// loop head
-		if heads[b.ID] {
+		// loop head (or an annotated cut point)
+		if heads[b.ID] || (b.Loop != nil && b.Loop.FullCut) {
 			ls := b.Loop
 			lname := fmt.Sprintf("loop%d", ls.Ordinal)
-			for _, inv := range ls.Invs {
-				g.obligation(reach, Cmd{Kind: CAssert, E: inv.E, Name: "inv-establish/" + lname + "/" + inv.Label, Props: inv.Props}, st)
+			if ls.FullCut {
+				lname = "cut/" + ls.CutName
+				// one obligation per incoming edge, in that edge's own state
+				for _, in := range ins {
+					if in.from != nil {
+						g.ctxBlk, g.curBlk = in.from.ID, in.from.ID
+					}
+					for _, inv := range ls.Invs {
+						g.obligation(in.guard, Cmd{Kind: CAssert, E: inv.E, Name: "inv-establish/" + lname + "/" + inv.Label, Props: inv.Props}, in.state)
+					}
+				}
+				g.ctxBlk, g.curBlk = b.ID, b.ID
+			} else {
+				for _, inv := range ls.Invs {
+					g.obligation(reach, Cmd{Kind: CAssert, E: inv.E, Name: "inv-establish/" + lname + "/" + inv.Label, Props: inv.Props}, st)
+				}
 			}
 			ms := modset[b.ID]
+			if ls.FullCut {
+				// havoc every cell that is assigned anywhere in the procedure
+				ms = map[string]*Cell{}
+				for _, bb := range p.Blocks {
+					for _, c := range bb.Cmds {
+						if (c.Kind == CAssign || c.Kind == CHavoc) && !p.NoHavoc[c.Cell.Name] {
+							ms[c.Cell.Name] = c.Cell
+						}
+					}
+				}
+			}
 			mkeys := make([]string, 0, len(ms))
 			for k := range ms {
 				mkeys = append(mkeys, k)
@@ -566,6 +760,9 @@ func GenVCs(p *Proc, prelude []string) (obls []*Obligation, err error) {
 				h := e.To
 				ls := h.Loop
 				lname := fmt.Sprintf("loop%d", ls.Ordinal)
+				if ls.FullCut {
+					lname = "cut/" + ls.CutName
+				}
 				for _, inv := range ls.Invs {
 					g.obligation(guard, Cmd{Kind: CAssert, E: inv.E, Name: "inv-preserve/" + lname + "/" + inv.Label, Props: inv.Props}, st)
 				}
